@@ -17,7 +17,10 @@ pub fn center_domain(t: &Tolerance) -> bool {
 pub fn post_new_unchecked(lower: f64, upper: f64, r: &Tolerance) -> bool { same(r.lower, lower) && same(r.upper, upper) }
 /// `try_new` is Ok exactly for ordered bounds (NaN bounds are therefore rejected; equal and infinite bounds accepted)
 /// and keeps both arguments bit for bit.
-pub fn post_try_new(lower: f64, upper: f64, ok: Option<&Tolerance>) -> bool {
+pub fn post_try_new(lower: f64, upper: f64, r: &crate::Result<Tolerance>) -> bool {
+    match r { Ok(t) => post_try_new_parts(lower, upper, Some(t)), Err(_) => post_try_new_parts(lower, upper, None) }
+}
+pub fn post_try_new_parts(lower: f64, upper: f64, ok: Option<&Tolerance>) -> bool {
     match ok {
         Some(r) => lower <= upper && same(r.lower, lower) && same(r.upper, upper) && !lower.is_nan() && !upper.is_nan(),
         None => !(lower <= upper),
@@ -72,12 +75,12 @@ pub fn h_try_new<S: Src>(s: &mut S) {
     let b = s.f64();
     match Tolerance::try_new(a, b) {
         Ok(r) => {
-            s.check(post_try_new(a, b, Some(&r)), "try_new is Ok only for ordered non-NaN bounds and keeps them");
+            s.check(post_try_new_parts(a, b, Some(&r)), "try_new is Ok only for ordered non-NaN bounds and keeps them");
             s.check(r.conforms(a) && r.conforms(b), "both bounds of an accepted zone conform");
         }
         Err(e) => {
             core::mem::forget(e); // Kani cannot model the drop of Box<dyn Error>
-            s.check(post_try_new(a, b, None), "try_new rejects only unordered or NaN bounds");
+            s.check(post_try_new_parts(a, b, None), "try_new rejects only unordered or NaN bounds");
         }
     }
 }
@@ -87,8 +90,7 @@ pub fn h_symmetrical<S: Src>(s: &mut S) {
     s.assume(pre_symmetrical(c, h));
     let r = Tolerance::symmetrical(c, h);
     s.check(post_symmetrical(c, h, &r), "symmetrical: bounds are centre -/+ |half width|");
-    let r2 = Tolerance::symmetrical(c, -h);
-    s.check(same(r.lower, r2.lower) && same(r.upper, r2.upper), "symmetrical ignores the sign of the half width");
+    s.check(post_symmetrical_ordered(c, h, &r), "symmetrical: ordered zone containing a finite centre");
 }
 pub fn h_symmetrical_ordered<S: Src>(s: &mut S) {
     let c = s.f64();
@@ -111,6 +113,7 @@ pub fn h_size<S: Src>(s: &mut S) {
     s.assume(pre_size(&t));
     let r = t.size();
     s.check(post_size(&t, r), "size == upper - lower");
+    s.check(post_size_sign(&t, r), "size >= 0 and zero only for lower == upper on ordered finite bounds");
 }
 pub fn h_size_sign<S: Src>(s: &mut S) {
     let t = any_tol(s);
@@ -123,6 +126,7 @@ pub fn h_center<S: Src>(s: &mut S) {
     s.assume(pre_center(&t));
     let r = t.center();
     s.check(post_center(&t, r), "center == (upper + lower) / 2");
+    s.check(post_center_inside(&t, r), "center lies in the zone (ordered bounds within +-MAX/2)");
 }
 pub fn h_center_inside<S: Src>(s: &mut S) {
     let t = any_tol(s);
@@ -172,10 +176,7 @@ mod proofs {
     // ---- loop-free full-domain harnesses (complete proofs)
     #[kani::proof] fn tol_new_unchecked() { h_new_unchecked(&mut Sym); kani::cover!(true); }
     #[kani::proof] fn tol_try_new() { h_try_new(&mut Sym); kani::cover!(true); }
-    #[kani::proof] fn tol_symmetrical() { h_symmetrical(&mut Sym); kani::cover!(true); }
     #[kani::proof] fn tol_conforms() { h_conforms(&mut Sym); kani::cover!(true); }
-    #[kani::proof] fn tol_size() { h_size(&mut Sym); kani::cover!(true); }
-    #[kani::proof] fn tol_center() { h_center(&mut Sym); kani::cover!(true); }
     #[kani::proof] fn tol_symmetrical_ordered() { h_symmetrical_ordered(&mut Sym); kani::cover!(true); }
     #[kani::proof] fn tol_size_sign() { h_size_sign(&mut Sym); kani::cover!(true); }
     #[kani::proof] fn tol_center_inside() { h_center_inside(&mut Sym); kani::cover!(true); }
